@@ -19,9 +19,10 @@ var families = map[string]func(*Runner){
 	"pool":      FamilyPool,
 	"clock":     FamilyClock,
 	"replay":    FamilyReplay,
+	"more":      FamilyMore,
 }
 
-var familyOrder = []string{"happy", "crash", "subsets", "fault", "recrash", "instances", "startup", "dedup", "tamper", "pool", "clock", "replay"}
+var familyOrder = []string{"happy", "crash", "subsets", "fault", "recrash", "instances", "startup", "dedup", "tamper", "pool", "clock", "replay", "more"}
 
 // TestCorpus records the scenario corpus. Environment: VERIF_OUT (ndjson file to
 // append to), VERIF_TIER, VERIF_SEED, VERIF_SHARD=i/n, VERIF_FAMILIES (comma
